@@ -32,6 +32,8 @@ def strategy(tier):
 EXHAUSTIVE_DOMAINS = {
     'list_batches': 'one rebind batch on a list of 4 symbolic children: every combination of 1-3 entries, each an index 0..4 x '
                     '{replace, insert, delete}, with notification on and off (quick: <=2 entries)',
+    'typed_dict_calls': 'every dict call (11) x target node 1..7 x key 0..2 x {scalar, container value} x notification on/off x mode 0..1 '
+                        'on two trees whose dict-typed object fields (value spec with free keys) hold containers',
 }
 
 
@@ -50,7 +52,18 @@ def exhaustive(tier):
                 'op': 'rebind_l', 't': 0, 'i': first[0], 'k': first[1], 'm': 5, 'j': None, 's': None, 'v': item, 'src': None,
                 'sv': True, 'nf': nf, 'own': False, 'mv': False,
                 'locs': [{'i': e[0], 'm': e[1], 'v': item} for e in extra]}]}
-  return {'list_batches': gen()}
+  def typed_dict_calls():
+    # every dict call on dict-typed fields of objects (a value spec with free keys / defaults) that hold containers
+    roots = [
+        {'$o': 'DK', 'a': {'m': {'$d': [['k', {'$d': [['k', [1]]]}], ['j', [2]]]}, 's': {'$d': [['q', [2]], ['r', {'$d': [['a', 1]]}]]}}},
+        {'$o': 'P', 'a': {'x': {'$o': 'DK', 'a': {'m': {'$d': [['a', [1]]]}}}, 'y': {'$d': [['k', {'$d': [['m', [1]]]}]]}}},
+    ]
+    for root in roots:
+      for name in treeops.DICT_OPS:
+        for t, k, v, nf, m in itertools.product(range(1, 8), range(3), (7, [{'$d': [['n', 9]]}]), (False, True), (0, 1)):
+          yield {'roots': [root], 'ops': [{'op': name, 't': t, 'i': 0, 'j': None, 's': None, 'k': k, 'v': v, 'src': None,
+                                           'sv': True, 'nf': nf, 'm': m, 'own': False, 'mv': False, 'locs': []}]}
+  return {'list_batches': gen(), 'typed_dict_calls': typed_dict_calls()}
 
 
 def walk_check(roots):
